@@ -3,10 +3,11 @@ One-line-in / one-line-out interpreter of the executable models (the corresponde
 pipes the same operations to the real code and to this program and diffs the answers).
 -/
 import ExecnetVerif.Driver.ValueIO
+import ExecnetVerif.Driver.ChannelFileIO
 
 open ExecnetVerif
 
-def handlers : List (List String → Option String) := [serHandle]
+def handlers : List (List String → Option String) := [serHandle, chanFileHandle]
 
 def dispatch (line : String) : String :=
   let toks := (line.splitOn " ").filter (· ≠ "")
